@@ -123,76 +123,162 @@ TEMPLATE = common.HEAD + common.STR_SHIMS + common.TOKEN_TYPES + SPLICE_SPEC + r
 pub uninterp spec fn spec_need_expand_brace(t: Seq<char>) -> bool;
 #[verifier::external_body]
 pub fn need_expand_brace(line: &str) -> (r: bool) ensures r == spec_need_expand_brace(line@) { unimplemented!() }
-pub uninterp spec fn spec_brace_words(t: Seq<char>) -> Seq<Seq<char>>;
-#[verifier::external_body]
-pub fn brace_getitem(s: &str, depth: i32) -> (r: (Vec<String>, String))
-    ensures depth == 0 ==> strs(r.0@) == spec_brace_words(s@)
-{ unimplemented!() }
 
+// ---- brace parser helpers ----
+#[verifier::external_body]
+pub fn vx_remove0(s: &mut String)
+    requires old(s)@.len() > 0
+    ensures final(s)@ == old(s)@.drop_first()
+{ s.remove(0); }
+#[verifier::external_body]
+pub fn vx_byte_len(s: &String) -> (r: usize) ensures r >= s@.len(), (s@.len() > 0 ==> r > 0) { s.len() }
+#[verifier::external_body]
+pub fn vx_clone_strings(v: &Vec<String>) -> (r: Vec<String>) ensures strs(r@) == strs(v@), r@.len() == v@.len() { v.clone() }
+
+// ---- glob ----
+pub uninterp spec fn spec_needs_globbing(t: Seq<char>) -> bool;
+#[verifier::external_body]
+pub fn needs_globbing(line: &str) -> (r: bool) ensures r == spec_needs_globbing(line@) { unimplemented!() }
+pub uninterp spec fn spec_basename(p: Seq<char>) -> Seq<char>;
+#[verifier::external_body]
+pub fn basename(path: &str) -> (r: String) ensures r@ == spec_basename(path@) { unimplemented!() }
+pub struct VxPath { pub s: String }
+impl VxPath {
+    #[verifier::external_body]
+    pub fn to_string_lossy(&self) -> (r: String) ensures r@ == self.s@ { unimplemented!() }
+}
+// glob::glob(pattern): Err for a malformed pattern, else the directory entries in glob's (sorted) order, each Ok(path) or Err (unreadable)
+#[verifier::external_body]
+pub fn vx_glob(pattern: &str) -> (r: Result<Vec<Result<VxPath, String>>, String>) { unimplemented!() }
+#[verifier::external_body]
+pub fn vx_clone_entry(e: &Result<VxPath, String>) -> (r: Result<VxPath, String>)
+    ensures match (r, *e) { (Ok(a), Ok(b)) => a.s@ == b.s@, (Err(_), Err(_)) => true, _ => false }
+{ unimplemented!() }
+// the hidden-file rule of the property statement
+pub open spec fn glob_keep(p: Seq<char>, show_hidden: bool) -> bool {
+    let bn = spec_basename(p);
+    bn != ".."@ && bn != "."@ && !(bn.len() > 0 && bn[0] == '.' && !show_hidden)
+}
+pub open spec fn entry_path(e: Result<VxPath, String>) -> Seq<char> { match e { Ok(p) => p.s@, Err(_) => Seq::empty() } }
+pub open spec fn visible_at(v: Seq<Result<VxPath, String>>, e: int, sh: bool) -> bool { v[e].is_ok() && glob_keep(entry_path(v[e]), sh) }
+pub open spec fn from_entries(w: Seq<char>, v: Seq<Result<VxPath, String>>, upto: int, sh: bool) -> bool {
+    exists|e: int| 0 <= e < upto && visible_at(v, e, sh) && #[trigger] entry_path(v[e]) == w
+}
+pub open spec fn has_word(words: Seq<String>, w: Seq<char>) -> bool { exists|q: int| 0 <= q < words.len() && (#[trigger] words[q])@ == w }
+pub proof fn lemma_glob_step(words: Seq<String>, v: Seq<Result<VxPath, String>>, n: int, sh: bool)
+    requires 0 <= n < v.len(),
+    ensures
+        forall|w: Seq<char>| from_entries(w, v, n, sh) ==> #[trigger] from_entries(w, v, n + 1, sh),
+        visible_at(v, n, sh) ==> from_entries(entry_path(v[n]), v, n + 1, sh),
+        forall|x: String, w: Seq<char>| has_word(words, w) ==> #[trigger] has_word(words.push(x), w),
+        forall|x: String| #[trigger] has_word(words.push(x), x@),
+{
+    assert forall|w: Seq<char>| from_entries(w, v, n, sh) implies #[trigger] from_entries(w, v, n + 1, sh) by {
+        let e = choose|e: int| 0 <= e < n && visible_at(v, e, sh) && #[trigger] entry_path(v[e]) == w;
+        assert(0 <= e < n + 1 && visible_at(v, e, sh) && entry_path(v[e]) == w);
+    }
+    if visible_at(v, n, sh) { assert(0 <= n < n + 1 && visible_at(v, n, sh) && entry_path(v[n]) == entry_path(v[n])); }
+    assert forall|x: String, w: Seq<char>| has_word(words, w) implies #[trigger] has_word(words.push(x), w) by {
+        let q = choose|q: int| 0 <= q < words.len() && (#[trigger] words[q])@ == w;
+        assert(words.push(x)[q]@ == w);
+    }
+    assert forall|x: String| #[trigger] has_word(words.push(x), x@) by {
+        assert(words.push(x)[words.len() as int]@ == x@);
+    }
+}
+
+// ---- numeric range ----
+pub struct VxRangeCaps { pub c1: String, pub c2: String, pub c4: Option<String> }
+pub uninterp spec fn spec_range_match(t: Seq<char>) -> bool;
+#[verifier::external_body]
+pub fn vx_range_is_match(t: &str) -> (r: bool) ensures r == spec_range_match(t@) { unimplemented!() }
+#[verifier::external_body]
+pub fn vx_range_caps(t: &str) -> (r: VxRangeCaps) requires spec_range_match(t@) { unimplemented!() }
+pub struct VxParseErr { pub e: i32 }
+pub uninterp spec fn spec_parse_i32(t: Seq<char>) -> Option<int>;
+#[verifier::external_body]
+pub fn vx_parse_i32(t: &str) -> (r: Result<i32, VxParseErr>)
+    ensures match r { Ok(x) => spec_parse_i32(t@) == Some(x as int), Err(_) => spec_parse_i32(t@).is_none() }
+{ unimplemented!() }
+pub uninterp spec fn spec_int_str(n: int) -> Seq<char>;
+#[verifier::external_body]
+pub fn vx_int_to_string(n: i64) -> (r: String) ensures r@ == spec_int_str(n as int) { format!("{}", n) }
+// the inclusive arithmetic sequence from a toward b in steps of d >= 1 (property statement)
+pub open spec fn arith_len(a: int, b: int, d: int) -> int { if a <= b { (b - a) / d + 1 } else { (a - b) / d + 1 } }
+pub open spec fn arith_at(a: int, b: int, d: int, k: int) -> int { if a <= b { a + k * d } else { a - k * d } }
+
+//@FN brace_getitem
+//@FN brace_getgroup
 //@FN expand_brace
+//@FN expand_glob
+//@FN expand_brace_range
 ''' + common.TAIL
 
 S = 'src/shell.rs'
 
 
-def splice_loops(first, outer, inner, buffname='buff'):
+def splice_loops(first, outer, inner, buffname='buff', items='items'):
     """invariants of the shared splice-back code: `for (i, items) in buff.iter().rev() { remove; for (j, token) in items.iter().enumerate() { insert } }`"""
     b = 'bview(%s@)' % buffname
     old = 'tsv(old(tokens)@)'
     n = '%s.len() as int' % old
-    return {
+    _r = {
         outer: Loop(invariant=[
             ('C12+C13.inv.splice.buff_ok', 'buff_ok(%s, %s)' % (b, n)),
             ('C12+C13.inv.splice.outer', 'tsv(tokens@) == %s.take(lo(%s, __i%d as int, %s)) + rest(%s, %s, __i%d as int)' % (old, b, outer, n, old, b, outer)),
         ]),
         inner: Loop(invariant=[
-            ('C12+C13.inv.splice.buff_ok2', 'buff_ok(%s, %s) && 0 <= __i%d < %s.len() && *i == %s[__i%d as int].0 && strs(items@) == %s[__i%d as int].1'
+            ('C12+C13.inv.splice.buff_ok2', 'buff_ok(%s, %s) && 0 <= __i%d < %s.len() && *i == %s[__i%d as int].0 && strs(ITEMS@) == %s[__i%d as int].1'
              % (b, n, outer, b, b, outer, b, outer)),
             ('C12+C13.inv.splice.inner',
-             'tsv(tokens@) == %s.take(*i as int) + mk_toks(strs(items@)).take(__i%d as int) + (%s.subrange(*i + 1, lo(%s, __i%d + 1, %s)) + rest(%s, %s, __i%d + 1))'
+             'tsv(tokens@) == %s.take(*i as int) + mk_toks(strs(ITEMS@)).take(__i%d as int) + (%s.subrange(*i + 1, lo(%s, __i%d + 1, %s)) + rest(%s, %s, __i%d + 1))'
              % (old, inner, old, b, outer, n, old, b, outer)),
         ]),
     }
+    for lp in _r.values():
+        lp.invariant = [(l, e.replace('ITEMS', items)) for l, e in lp.invariant]
+    return _r
 
 
-def splice_hints(outer, inner, buffname='buff'):
+def splice_hints(outer, inner, buffname='buff', items='items'):
     b = 'bview(%s@)' % buffname
     old = 'tsv(old(tokens)@)'
-    return {
+    _h = {
         'loop-%d-body-entry' % outer:
             'lemma_tsv_ops(tokens@); lemma_splice_remove(%s, %s, __i%d as int, tsv(tokens@)); '
             'assert(%s[__i%d - 1] == ((%s@[__i%d - 1]).0 as int, strs((%s@[__i%d - 1]).1@)));' % (old, b, outer, b, outer, buffname, outer, buffname, outer),
         'loop-%d-body-entry' % inner:
             'lemma_tsv_ops(tokens@); lemma_tsv_ops(old(tokens)@); assert(tsv(old(tokens)@).take(*i as int).len() == *i); '
-            'lemma_splice_insert(%s.take(*i as int), mk_toks(strs(items@)), __i%d as int, '
+            'lemma_splice_insert(%s.take(*i as int), mk_toks(strs(ITEMS@)), __i%d as int, '
             '%s.subrange(*i + 1, lo(%s, __i%d + 1, %s.len() as int)) + rest(%s, %s, __i%d + 1), tsv(tokens@)); '
-            'assert(mk_toks(strs(items@))[__i%d as int] == mk_tok(items@[__i%d as int]@)); '
+            'assert(mk_toks(strs(ITEMS@))[__i%d as int] == mk_tok(ITEMS@[__i%d as int]@)); '
             'assert(%s.take(*i as int).len() + __i%d <= tsv(tokens@).len()); assert(tsv(tokens@).len() == tokens@.len()); '
             'assert(tokens@.len() == tokens.len()); assert(tokens.len() <= usize::MAX); assert(*i + __i%d <= usize::MAX);'
             % (old, inner, old, b, outer, old, old, b, outer, inner, inner, old, inner, inner),
         'loop-%d-exit' % inner:
             'lemma_splice_done(%s, %s, __i%d + 1, tsv(tokens@));' % (old, b, outer),
     }
+    return {k: v.replace('ITEMS', items) for k, v in _h.items()}
 
 
 expand_brace = Fn(S, 'expand_brace',
     rewrites=[Rw('types::Tokens', 'Tokens', required=False, rule='R0')],
+    requires=[('C05.pre.token_len', 'forall|i: int| 0 <= i < old(tokens)@.len() ==> (#[trigger] old(tokens)@[i]).1@.len() < 0x7fff_fff0')],
     let_types={'buff': 'Vec<(usize, Vec<String>)>'},
     loop_kinds={1: 'value'},
     ensures=[
         ('C12+C13+C01.brace.result_is_splice',
          'exists|b: BV| buff_ok(b, old(tokens)@.len() as int) && tsv(final(tokens)@) == spliced(tsv(old(tokens)@), b) '
-         '&& (forall|m: int| 0 <= m < b.len() ==> unq(old(tokens)@[(#[trigger] b[m]).0]) && spec_need_expand_brace(old(tokens)@[b[m].0].1@) '
-         '    && b[m].1 == spec_brace_words(old(tokens)@[b[m].0].1@)) '
+         '&& (forall|m: int| 0 <= m < b.len() ==> unq(old(tokens)@[(#[trigger] b[m]).0]) && spec_need_expand_brace(old(tokens)@[b[m].0].1@)) '
          '&& (forall|k: int| 0 <= k < old(tokens)@.len() && unq(old(tokens)@[k]) && spec_need_expand_brace(old(tokens)@[k].1@) ==> in_buff(b, k))'),
     ],
     loops={
         0: Loop(invariant=[
             ('C12.inv.brace.idx', 'idx == __i0 && tokens@ == old(tokens)@'),
+            ('C05.inv.brace.token_len', 'forall|i: int| 0 <= i < tokens@.len() ==> (#[trigger] tokens@[i]).1@.len() < 0x7fff_fff0'),
             ('C12+C13.inv.brace.buff_ok', 'buff_ok(bview(buff@), __i0 as int)'),
             ('C12+C13+C01.inv.brace.only_unquoted',
-             'forall|m: int| 0 <= m < buff@.len() ==> unq(tokens@[(#[trigger] bview(buff@)[m]).0]) && spec_need_expand_brace(tokens@[bview(buff@)[m].0].1@) '
-             '&& bview(buff@)[m].1 == spec_brace_words(tokens@[bview(buff@)[m].0].1@)'),
+             'forall|m: int| 0 <= m < buff@.len() ==> unq(tokens@[(#[trigger] bview(buff@)[m]).0]) && spec_need_expand_brace(tokens@[bview(buff@)[m].0].1@)'),
             ('C12.inv.brace.all_found',
              'forall|k: int| 0 <= k < __i0 && unq(tokens@[k]) && spec_need_expand_brace(tokens@[k].1@) ==> in_buff(bview(buff@), k)'),
         ]),
@@ -204,5 +290,111 @@ expand_brace = Fn(S, 'expand_brace',
            'loop-1-body-entry': 'assert(strs(__v1@).take(__i1 + 1) =~= strs(__v1@).take(__i1 as int).push(__v1@[__i1 as int]@));'},
 )
 
-UNIT = Unit('U-EXP1', TEMPLATE, fns=[expand_brace], props=('C12', 'C13', 'C01', 'C05'))
+
+def splice_ensures(name, extra_entry, match_pred):
+    return (name,
+         'exists|b: BV| buff_ok(b, old(tokens)@.len() as int) && tsv(final(tokens)@) == spliced(tsv(old(tokens)@), b) '
+         '&& (forall|m: int| 0 <= m < b.len() ==> unq(old(tokens)@[(#[trigger] b[m]).0]) && %s(old(tokens)@[b[m].0].1@) && %s) '
+         '&& (forall|k: int| 0 <= k < old(tokens)@.len() && unq(old(tokens)@[k]) && %s(old(tokens)@[k].1@) ==> in_buff(b, k))'
+         % (match_pred, extra_entry, match_pred))
+
+
+def first_loop_inv(prefix, extra_entry, match_pred):
+    return [
+        ('C12.inv.%s.idx' % prefix, 'idx == __i0 && tokens@ == old(tokens)@'),
+        ('C12+C13.inv.%s.buff_ok' % prefix, 'buff_ok(bview(buff@), __i0 as int)'),
+        ('C12+C13+C01.inv.%s.only_unquoted' % prefix,
+         'forall|m: int| 0 <= m < buff@.len() ==> unq(tokens@[(#[trigger] bview(buff@)[m]).0]) && %s(tokens@[bview(buff@)[m].0].1@) && %s'
+         % (match_pred, extra_entry)),
+        ('C12.inv.%s.all_found' % prefix,
+         'forall|k: int| 0 <= k < __i0 && unq(tokens@[k]) && %s(tokens@[k].1@) ==> in_buff(bview(buff@), k)' % match_pred),
+    ]
+
+
+TYRW = [Rw('types::Tokens', 'Tokens', required=False, rule='R0')]
+
+# ------------------------------------------------------------------ expand_glob
+expand_glob = Fn(S, 'expand_glob',
+    rewrites=TYRW + [Rw('glob::glob(item)', 'vx_glob(item)', rule='R10',
+                        why='glob::glob through an uninterpreted shim: Err for a bad pattern, else the entries in glob order')],
+    let_types={'buff': 'Vec<(usize, Vec<String>)>'},
+    loop_kinds={1: 'value', (1, 'clone'): 'vx_clone_entry(&{})'},
+    ensures=[
+        ('C12+C13+C01.glob.result_is_splice_or_unchanged',
+         '(tsv(final(tokens)@) == tsv(old(tokens)@)) || ' +
+         splice_ensures('', 'b[m].1.len() > 0', 'spec_needs_globbing')[1]),
+    ],
+    loops={
+        0: Loop(invariant=first_loop_inv('glob', 'bview(buff@)[m].1.len() > 0', 'spec_needs_globbing')),
+        1: Loop(invariant=[
+            ('C12.inv.glob.never_vanishes', '!is_empty ==> result@.len() > 0'),
+            ('C12.inv.glob.only_visible', 'forall|q: int| 0 <= q < result@.len() ==> from_entries((#[trigger] result@[q])@, __v1@, __i1 as int, show_hidden)'),
+            ('C12.inv.glob.all_visible', 'forall|e: int| 0 <= e < __i1 && #[trigger] visible_at(__v1@, e, show_hidden) ==> has_word(result@, entry_path(__v1@[e]))'),
+        ]),
+        **splice_loops(0, 2, 3, items='result'),
+    },
+    hints={**splice_hints(2, 3, items='result'), 'loop-0-body-entry': 'lemma_bview_push(buff@); lemma_found_push(buff@);',
+           'loop-1-body-entry': 'lemma_glob_step(result@, __v1@, __i1 as int, show_hidden);'},
+)
+
+# ------------------------------------------------------------------ expand_brace_range
+RANGE_RW = TYRW + [
+    Rw(r'let re;[\s\S]*?let mut idx: usize = 0;', 'let mut idx: usize = 0;', regex=True, rule='R6',
+       why='Regex::new(range pattern) and its error path dropped; is_match/captures go through uninterpreted shims'),
+    Rw('re.is_match(token)', 'vx_range_is_match(token)', rule='R6'),
+    Rw('re.captures(token).unwrap()', 'vx_range_caps(token)', rule='R6', why='captures().unwrap() after is_match: shim requires the match'),
+    Rw(r'caps\[(\d)\]\.to_string\(\)\.parse::<i32>\(\)', r'vx_parse_i32(&caps.c\1)', regex=True, rule='R6',
+       why='capture group text parsed with str::parse::<i32> (Ok iff a decimal in range: std contract, uninterpreted value)'),
+    Rw('caps.get(4).is_none()', 'caps.c4.is_none()', rule='R6'),
+    Rw('vx_parse_i32(&caps.c4)', 'vx_parse_i32(caps.c4.as_ref().unwrap())', required=False, rule='R6'),
+]
+expand_brace_range = Fn(S, 'expand_brace_range', pre_rewrites=[], rewrites=[], int_args=('n',), props=('C12',),
+    let_types={'buff': 'Vec<(usize, Vec<String>)>'},
+    ensures=[
+        ('C12+C13+C01.range.result_is_splice_or_unchanged',
+         '(tsv(final(tokens)@) == tsv(old(tokens)@)) || ' +
+         splice_ensures('', 'b[m].1.len() > 0', 'spec_range_match')[1]),
+    ],
+    loops={
+        0: Loop(invariant=first_loop_inv('range', 'bview(buff@)[m].1.len() > 0', 'spec_range_match')),
+        1: Loop(invariant=[
+            ('C12.inv.range.desc_bounds', 'incr >= 1 && start > end && n <= start && -0x8000_0000 <= end && start <= 0x7fff_ffff && incr <= 0x7fff_ffff'),
+            ('C12.inv.range.desc_seq', 'n as int == start as int - result@.len() * incr as int && '
+                                       'forall|k: int| 0 <= k < result@.len() ==> (#[trigger] result@[k])@ == spec_int_str(start as int - k * incr as int)'),
+        ], decreases='n as int - end as int + incr as int'),
+        2: Loop(invariant=[
+            ('C12.inv.range.asc_bounds', 'incr >= 1 && start <= end && n >= start && -0x8000_0000 <= start && end <= 0x7fff_ffff && incr <= 0x7fff_ffff'),
+            ('C12.inv.range.asc_seq', 'n as int == start as int + result@.len() * incr as int && '
+                                      'forall|k: int| 0 <= k < result@.len() ==> (#[trigger] result@[k])@ == spec_int_str(start as int + k * incr as int)'),
+        ], decreases='end as int - n as int + incr as int'),
+        **splice_loops(0, 3, 4),
+    },
+    hints={**splice_hints(3, 4), 'loop-0-body-entry': 'lemma_bview_push(buff@); lemma_found_push(buff@);',
+           'loop-1-body-entry': 'assert((result@.len() + 1) * incr as int == result@.len() * incr as int + incr as int) by(nonlinear_arith);',
+           'loop-2-body-entry': 'assert((result@.len() + 1) * incr as int == result@.len() * incr as int + incr as int) by(nonlinear_arith);'},
+)
+expand_brace_range.pre_rewrites = RANGE_RW
+
+# ------------------------------------------------------------------ recursive brace parser: safety + termination
+BRACE_RW = [
+    Rw(r'\b(ss|sss)\.remove\(0\)', r'vx_remove0(&mut \1)', regex=True, rule='R12', why='String::remove(0) (first char) through a shim: requires non-empty'),
+    Rw(r'\bss\.len\(\)', 'vx_byte_len(&ss)', regex=True, required=False, rule='R12', why='String::len is the byte length'),
+]
+brace_getitem = Fn(S, 'brace_getitem', ret='r', rewrites=BRACE_RW,
+    requires=[('C05.pre.brace.depth', '0 <= depth && depth as int + s@.len() < 0x7fff_ffff')],
+    ensures=[('C05.brace.item.rest_not_longer', 'r.1@.len() <= s@.len()'),
+             ('C05.brace.item.stops_at_sep', 'depth > 0 ==> r.1@.len() == 0 || r.1@[0] == \',\' || r.1@[0] == \'}\'')],
+    decreases='s@.len(), 0int',
+    let_types={'tmp_out': 'Vec<String>', 'result': 'Vec<String>'},
+    loops={0: Loop(invariant=[('C05.inv.brace.item', 'ss@.len() <= s@.len() && 0 <= depth && depth as int + s@.len() < 0x7fff_ffff')], decreases='ss@.len()')},
+)
+brace_getgroup = Fn(S, 'brace_getgroup', ret='r', rewrites=BRACE_RW,
+    requires=[('C05.pre.brace.depth_g', '1 <= depth && depth as int + s@.len() < 0x7fff_ffff')],
+    ensures=[('C05.brace.group.rest_not_longer', 'match r { Some(p) => p.1@.len() <= s@.len(), None => true }')],
+    decreases='s@.len(), 1int',
+    let_types={'result': 'Vec<String>'},
+    loops={0: Loop(invariant=[('C05.inv.brace.group', 'ss@.len() <= s@.len() && 1 <= depth && depth as int + s@.len() < 0x7fff_ffff')], decreases='ss@.len()')},
+)
+
+UNIT = Unit('U-EXP1', TEMPLATE, fns=[brace_getitem, brace_getgroup, expand_brace, expand_glob, expand_brace_range], props=('C12', 'C13', 'C01', 'C05'))
 TRUSTED = common.TRUSTED_STR + common.TRUSTED_TOKEN + []
